@@ -29,6 +29,10 @@ Lemma pin_sql : sql_pins =
 ''' + body('sql_pins') + '''.
 Proof. reflexivity. Qed.
 
+Lemma pin_stmt_order : stmt_order =
+''' + body('stmt_order') + '''.
+Proof. reflexivity. Qed.
+
 Lemma pin_tx_brackets : tx_brackets =
 ''' + body('tx_brackets') + '''.
 Proof. reflexivity. Qed.
